@@ -27,6 +27,7 @@ type MustCallSpec struct {
 	Func    string   `json:"func"`
 	Targets []string `json:"targets"` // function keys; every path from entry to a return passes a call reaching one of them
 	What    string   `json:"what"`
+	Mode    string   `json:"mode"` // "" = on every path; "reach" = sibling agreement: the target is reachable from the function at all
 }
 
 type PairSpec struct {
@@ -417,6 +418,21 @@ func runMustCall(p *Program, c *Collector, mc MustCallSpec) {
 		names = append(names, shortFn(t))
 	}
 	key := "mustcall:" + mc.Func + " -> " + strings.Join(names, "|")
+	if mc.Mode == "reach" {
+		reached := false
+		for f := range p.reach([]*ssa.Function{fn}) {
+			if m.targets[f] {
+				reached = true
+			}
+		}
+		key = "sibling:" + mc.Func + " -> " + strings.Join(names, "|")
+		if reached {
+			c.Ob(mc.Props, "E6.sibling-agreement", key, Discharged, mc.What+": the callback can reach "+strings.Join(names, "|")+" like its siblings", p.FuncPos(fn), true)
+		} else {
+			c.Ob(mc.Props, "E6.sibling-agreement", key, Violated, mc.What+": "+shortFn(mc.Func)+" never reaches "+strings.Join(names, "|")+", which its sibling callbacks use to record the same attribute", p.FuncPos(fn), false)
+		}
+		return
+	}
 	ok, off := m.check(fn)
 	if ok {
 		c.Ob(mc.Props, "E6.must-record", key, Discharged, mc.What+": every path from entry to a return passes a call that always reaches "+strings.Join(names, "|"), p.FuncPos(fn), true)
